@@ -145,6 +145,18 @@ def reuse_histories(draw):
 
 from props.coap_layers import C11_COAP_LAYERS as _COAP11  # noqa: E402
 
+
+def run_remove_pairing(case, R):
+    """Controller.remove_pairing(alias): refused or not, the controller forgets the pairing - its connection must be closed (cells and harness of C04's ip-pairings layer)."""
+    from props.ble_layers import run_c04_ip
+    run_c04_ip(case, R)
+
+
+def enum_remove_pairing(tier):
+    from props.ble_layers import enum_c04_ip
+    return (c for c in enum_c04_ip(tier) if c.get("via") == "controller")
+
+
 SPEC = Property(
     P, "fault_enumeration",
     rule=("address lists of 1..3 hosts (paired accessory / another accessory / refusing / black hole) x a per-attempt outcome script over "
@@ -162,6 +174,8 @@ SPEC = Property(
               space="two pairings in one process: 9 disturbances of A's connection while B has a request outstanding; both creation orders", min_nontrivial=10),
         Layer("reuse-after-close", run_case, strategy=reuse_histories, n={"quick": 4000, "thorough": 60000}, min_nontrivial=200),
         *_COAP11,
+        Layer("remove-pairing-via-controller", run_remove_pairing, enumerate=enum_remove_pairing, exhaustive=True,
+              space="Controller.remove_pairing(alias) x 13 states x 13 errors of the accessory's answer", min_nontrivial=100),
     ],
     assumptions=["'holds a connection' = the controller has not called close()/abort() on the transport and has not been told it is lost",
                  "observations are taken when the event loop is idle, and at the instant each new connection is opened"],
